@@ -20,6 +20,7 @@ import (
 	"time"
 
 	ouroboros "github.com/blinklabs-io/gouroboros"
+	"github.com/blinklabs-io/gouroboros/protocol"
 
 	"verif/harness/internal/rawpeer"
 	"verif/harness/internal/xcbor"
@@ -86,7 +87,17 @@ type scenario struct {
 	// BadExtra: well-formed messages of this protocol that no server state admits
 	// (client-side kinds); used by the not-admitted fault next to an unknown tag.
 	BadExtra []wire
-	sends    []int // indices of send events
+	// SM binds the scenario to the library's exported state map (used only by the
+	// self-check of the admitted / not-admitted labels); nil when the protocol
+	// does not export what is needed
+	SM    *smBinding
+	sends []int // indices of send events
+}
+
+type smBinding struct {
+	Map     protocol.StateMap
+	Decode  func(uint, []byte) (protocol.Message, error)
+	Initial string // name of the initial state
 }
 
 func (s *scenario) finish() *scenario {
@@ -215,6 +226,7 @@ type outcome struct {
 	CallsStarted     int  `json:"calls_started"`
 	NeededClose      bool `json:"calls_pending_until_local_close"`
 	leakFuncs        []string
+	wireLog          []wireRec
 }
 
 // ---- goroutine bookkeeping ---------------------------------------------------------
@@ -354,6 +366,13 @@ type runner struct {
 	ca, cb     *rawpeer.FragConn
 	peerResp   bool // direction bit of the peer's segments
 	t0         time.Time
+	wireLog    []wireRec // messages in script order (self-check only)
+}
+
+type wireRec struct {
+	FromLib bool
+	EvIdx   int
+	Data    []byte
 }
 
 func (r *runner) logf(format string, a ...any) {
@@ -435,6 +454,7 @@ func (r *runner) await(tag int, d time.Duration) bool {
 		return false
 	}
 	r.logf("peer <- tag %d (%d bytes)", tag, len(m))
+	r.wireLog = append(r.wireLog, wireRec{FromLib: true, EvIdx: -1, Data: m})
 	return true
 }
 
@@ -681,7 +701,7 @@ func runCaseIgnoring(scn *scenario, cs caseSpec, bound time.Duration, ignore map
 		if strings.HasPrefix(symptom, "goroutine-leak@") {
 			// a pure leak (every call and Close() returned): the leaked function is the
 			// precise locator; which fault ended the connection does not matter
-			return fmt.Sprintf("%s:%s:%s", scn.Proto, orDash(pos.call), symptom)
+			return fmt.Sprintf("%s:%s", scn.Proto, symptom)
 		}
 		return r.key(pos, variant, symptom)
 	}
@@ -714,6 +734,41 @@ func runCaseIgnoring(scn *scenario, cs caseSpec, bound time.Duration, ignore map
 		time.Sleep(sleep)
 		if sleep < 20*time.Millisecond {
 			sleep *= 2
+		}
+	}
+	if symptom != "" && len(leaks) > 0 {
+		// a leak is a goroutine that stays: goroutines that are only passing through
+		// (e.g. a timer callback that is about to return) are not in a second
+		// snapshot taken a little later
+		first := map[int]bool{}
+		for _, g := range leaks {
+			first[g.ID] = true
+		}
+		time.Sleep(40 * time.Millisecond)
+		symptom = assess()
+		kept := leaks[:0]
+		for _, g := range leaks {
+			if first[g.ID] {
+				kept = append(kept, g)
+			}
+		}
+		if len(kept) != len(leaks) {
+			leaks = kept
+			out.leakFuncs = out.leakFuncs[:0]
+			seenF := map[string]bool{}
+			for _, g := range leaks {
+				if f := topFunc(g); !seenF[f] {
+					seenF[f] = true
+					out.leakFuncs = append(out.leakFuncs, f)
+				}
+			}
+			sort.Strings(out.leakFuncs)
+			if strings.HasPrefix(symptom, "goroutine-leak@") {
+				symptom = ""
+				if len(leaks) > 0 {
+					symptom = "goroutine-leak@" + strings.Join(out.leakFuncs, "+")
+				}
+			}
 		}
 	}
 	if symptom == "winding-down" {
@@ -767,6 +822,7 @@ func runCaseIgnoring(scn *scenario, cs caseSpec, bound time.Duration, ignore map
 	r.mu.Lock()
 	out.Trace = append([]string(nil), r.trace...)
 	r.mu.Unlock()
+	out.wireLog = r.wireLog
 	return out
 }
 
@@ -1042,17 +1098,20 @@ func (r *runner) script(pos position, out *outcome) (variant string, peerClosed 
 			peerClosed = true
 			return true
 		case fGarbage:
-			noise := cs.Noise
+			noise := append([]byte(nil), cs.Noise...)
 			if len(noise) == 0 {
 				noise = []byte{0xde, 0xad, 0xbe, 0xef, 0x00, 0xff, 0x13, 0x37, 0x42}
 			}
+			// framed noise must not be the prefix of a well-formed item (else it is just
+			// a delayed legitimate message): start it with a reserved head byte
+			framedNoise := append([]byte{[]byte{0xff, 0x1c, 0x1d, 0x1e, 0x3e, 0x5c, 0xfc}[int(noise[0])%7]}, noise...)
 			g := garbageNames[mod(cs.Variant, len(garbageNames))]
 			r.logf("FAULT garbage: %s", g)
 			switch g {
 			case "raw-bytes":
 				_ = r.peer.SendBytes(noise)
 			case "framed-noise":
-				_ = r.peer.Send(rawpeer.Seg{ProtoID: s.ProtoID, Response: r.peerResp, Payload: noise})
+				_ = r.peer.Send(rawpeer.Seg{ProtoID: s.ProtoID, Response: r.peerResp, Payload: framedNoise})
 			case "framed-bad-cbor":
 				_ = r.peer.Send(rawpeer.Seg{ProtoID: s.ProtoID, Response: r.peerResp, Payload: []byte{0x82, 0x1c, 0xff, 0xff}})
 			case "framed-nonarray":
@@ -1092,6 +1151,7 @@ func (r *runner) script(pos position, out *outcome) (variant string, peerClosed 
 			}
 			continue // faults that keep the connection: the legitimate script goes on
 		}
+		r.wireLog = append(r.wireLog, wireRec{FromLib: false, EvIdx: i, Data: e.Send.Data})
 		r.send(e.Send)
 	}
 	if r.fault == fNone {
